@@ -349,22 +349,41 @@ def check(run: Run) -> None:
         run.refuted("C04.R7", "enterAnd_filter", bad, f"`{ast.unparse(bad)}` strips a character set, not the prefix", file=FILE, node=bad)
 
     # ------------------------------------------------------------------ R2
+    # through the listener (helper names and calling conventions are free): an AND group holding the priority atoms, compiled by enterAnd_filter
+    def prio_atom(text):
+        return specs.ctx("where_atom", None, priority_range=specs.ctx("priority_range", text))
+
+    def priorities_of(atoms, label):
+        out = []
+        for f, s in run_and_filter(atoms):
+            if isinstance(f, Raised):
+                out.append([f"raises {f.exc}"])
+            elif [x for x in s.imprecise if "abstract iterable" not in x]:
+                run.undecided("C04.R2", "enterAnd_filter", f"{label}: " + "; ".join(s.imprecise[:2]))
+                out.append(None)
+            else:
+                out.append(sorted(f.get("priorities") or []))
+        return out
+
     n_sp = 0
     bad_sp = []
     for n in range(10):
         for m in [None] + list(range(1, 10)):
             text = f"P{n}" + (f"-{m}" if m is not None else "")
-            st = State()
-            target = st.alloc(HObj("set"))
-            res = I.run_function(f"{QCMP}._add_priorities", [specs.ctx("priority_range", text), target], st=st)
             n_sp += 1
-            for v, s in res:
-                got = sorted(_set_items(s, target)) if not isinstance(v, Raised) else [f"raises {v.exc}"]
-                want = [f"P{k}" for k in range(n, (m if m is not None else n) + 1)]
-                if got != want or s.imprecise:
+            want = [f"P{k}" for k in range(n, (m if m is not None else n) + 1)]
+            for got in priorities_of([prio_atom(text)], text):
+                if got is not None and got != want:
                     bad_sp.append((text, got, want))
-    run.check("C04.R2", f"all {n_sp} spellings Pn / Pn-m denote [n..m]", not bad_sp, "_add_priorities", f"{bad_sp[0] if bad_sp else ''}",
+    run.check("C04.R2", f"all {n_sp} spellings Pn / Pn-m denote [n..m]", not bad_sp, "enterAnd_filter", f"{bad_sp[0] if bad_sp else ''}",
               f"`{bad_sp[0][0] if bad_sp else ''}` compiles to {bad_sp[0][1] if bad_sp else ''}, expected {bad_sp[0][2] if bad_sp else ''}", file=FILE, detail=dict(bad=bad_sp[:10]))
+    # several priority atoms (and several kind atoms) of ONE group pool into one set, whatever their order
+    for texts, want in ((("P1", "P3-5"), ["P1", "P3", "P4", "P5"]), (("P3-5", "P1"), ["P1", "P3", "P4", "P5"]), (("P0", "P2", "P7-9"), ["P0", "P2", "P7", "P8", "P9"]), (("P2-4", "P3"), ["P2", "P3", "P4"])):
+        for got in priorities_of([prio_atom(t) for t in texts], " ".join(texts)):
+            if got is None:
+                continue
+            run.check("C04.R2", f"`{' '.join(texts)}` in one group pools to {want}", got == want, "enterAnd_filter", f"{' '.join(texts)} -> {got}",
+                      f"the priority atoms `{' '.join(texts)}` of one AND group compile to {got}, expected {want}: a later priority atom replaces (or is dropped in favour of) an earlier one instead of being pooled with it", file=FILE)
     run.floor("priority spellings", n_sp, 100)
 
     # ------------------------------------------------------------------ R3 dates
